@@ -5,7 +5,7 @@
    check_corr: the mirrored expressions of Model.v evaluate to (a), and the denotation of Spec.v reproduces (b), (c).
    check_spec: the property itself on the implementation's observations: (a) agrees with (b)/(c). *)
 From Coq Require Import ZArith QArith Qround List Bool.
-Require Import QV.common.Util QV.C07.Model QV.C07.Spec.
+Require Import QV.common.Util QV.C07.Model QV.C07.Spec QV.C07.Wf.
 Import ListNotations.
 Open Scope Q_scope.
 
@@ -29,6 +29,10 @@ Inductive case :=
 | CPulse (p : pt) (rho : list (var * Q)) (sdur : option Q) (r : real) (obs : list chobs)
          (padlen : Q) (padded : real)    (* pad_to(total + padlen) instantiated *)
          (strict : bool)                 (* false for the malformed stream (a parameter is missing) *)
+         (g_ini g_tail : bool)           (* the harness' (Python) evaluation of the guards of the known findings
+                                            initial-head-empty-or-jump / final-tail-empty, used by `classify` *)
+| CExtern                 (* a case outside the Coq model (time dependent ArithmeticPT scalar): judged by the harness'
+                            Python oracle (py_spec) only *)
 | CCrash.
 
 Definition oq_eqb (a b : option Q) : bool := opt_eqb Qeq_bool a b.
@@ -53,10 +57,18 @@ Definition real_matches (r : real) (d : option pulse) : bool :=
 Definition check_corr (cs : case) : bool :=
   match cs with
   | CCrash => false
-  | CPulse p rl sdur r obs padlen padded strict =>
+  | CExtern => true
+  | CPulse p rl sdur r obs padlen padded strict g_ini g_tail =>
       let rho := env_of rl in
       let den := denote p rho in
-      (if strict then oq_eqb else oq_sub) (eval rho (duration_expr p)) sdur
+      (* every generated template is inside the domain of the theorems C07_duration / C07_integral / ..._guarded *)
+      (negb strict || wf p)
+      (* the classifier's guard predicates are the proven guards (Wf.v) on this case *)
+      && (negb strict || match den with
+                         | Some _ => Bool.eqb (guard_C07_initial_head p rho) g_ini && Bool.eqb (guard_C07_final_tail p rho) g_tail
+                         | None => true
+                         end)
+      && (if strict then oq_eqb else oq_sub) (eval rho (duration_expr p)) sdur
       && chans_sub (map co_chan obs) (channels p) && chans_sub (channels p) (map co_chan obs)
       && (let cmp := if strict then oq_eqb else oq_sub in
           forallb (fun o =>
@@ -93,7 +105,8 @@ Definition check_corr (cs : case) : bool :=
 Definition check_spec (cs : case) : bool :=
   match cs with
   | CCrash => false
-  | CPulse p rl sdur r obs padlen padded strict =>
+  | CExtern => true
+  | CPulse p rl sdur r obs padlen padded strict _ _ =>
       let rho := env_of rl in
       match r with
       | RErr => true
